@@ -159,8 +159,14 @@ func (s *c06SpaceT) gen(emit func(c06Case)) {
 		s.counts[kind]++
 		emit(c06Case{Kind: kind, Src: src, Text: fmt.Sprintf("%q", src), Set: set})
 	}
+	// The longest byte strings and token sequences are by far the largest
+	// sets; they go last so that a time budget cut leaves the other sets whole.
+	last := false
 	// (a)
 	enum.Seqs(c06Bytes, s.Bytes[0], func(w []string) {
+		if (len(w) == s.Bytes[0]) != last {
+			return
+		}
 		var b []byte
 		for _, x := range w {
 			b = append(b, x...)
@@ -169,7 +175,7 @@ func (s *c06SpaceT) gen(emit func(c06Case)) {
 	})
 	// (b)
 	enum.Seqs(c06Tokens, s.Tokens[0], func(w []string) {
-		if len(w) == 0 {
+		if len(w) == 0 || (len(w) == s.Tokens[0]) != last {
 			return
 		}
 		for _, sep := range []string{" ", ""} {
@@ -241,4 +247,35 @@ func (s *c06SpaceT) gen(emit func(c06Case)) {
 			}
 		}
 	}
+	last = true
+	// (a), longest
+	enum.Seqs(c06Bytes, s.Bytes[0], func(w []string) {
+		if (len(w) == s.Bytes[0]) != last {
+			return
+		}
+		var b []byte
+		for _, x := range w {
+			b = append(b, x...)
+		}
+		put("bytes", b, s.setFor(s.Bytes, len(w)))
+	})
+	// (b), longest
+	enum.Seqs(c06Tokens, s.Tokens[0], func(w []string) {
+		if len(w) == 0 || (len(w) == s.Tokens[0]) != last {
+			return
+		}
+		for _, sep := range []string{" ", ""} {
+			var b []byte
+			for i, x := range w {
+				if i > 0 {
+					b = append(b, sep...)
+				}
+				b = append(b, x...)
+			}
+			put("tokens", b, s.setFor(s.Tokens, len(w)))
+			if len(w) == 1 {
+				break
+			}
+		}
+	})
 }
